@@ -2398,6 +2398,331 @@ example : (∀ o ∈ chainFlatten [Op.diag 0 (fun _ : Fin 2 => (2 : ℚ)) 1 0, O
     · cases hl
     · injection hl with hl; subst hl; simp
 
+/-! ### Part 10 — block-diagonal operands (`_combine_sum`, `_combine_chain`) -/
+
+/-- sign of a summand -/
+def sg {R : Type} [Neg R] (n : Bool) (x : R) : R := if n then -x else x
+
+/-- the block-diagonal embedding is additive and multiplicative entry by entry.  Every coordinate projection `l ↦ l[i]` satisfies
+    this (`blockHom_proj`), and a block-diagonal operator is determined by its projections, so the theorems below say: every block
+    of the combined operator is the sum / product of the corresponding blocks. -/
+structure BlockHom : Prop where
+  add : ∀ dm (a b : List (Matrix X X K)) (na nb : Bool), a.length = b.length →
+    blocks dm (List.zipWith (fun x y => sg na x + sg nb y) a b) = sg na (blocks dm a) + sg nb (blocks dm b)
+  mul : ∀ dm (a b : List (Matrix X X K)), a.length = b.length →
+    blocks dm (List.zipWith (fun x y => x * y) a b) = blocks dm a * blocks dm b
+
+/-- non-vacuity: the projection onto block `i` (zero outside the key list) is a `BlockHom` -/
+theorem blockHom_proj (i : Nat) : BlockHom (X := X) (K := K) (fun _ l => l.getD i 0) := by
+  constructor
+  · intro _ a b na nb h
+    simp only [List.getD_eq_getElem?_getD, List.getElem?_zipWith]
+    by_cases hi : i < a.length
+    · have hi' : i < b.length := h ▸ hi
+      simp [List.getElem?_eq_getElem hi, List.getElem?_eq_getElem hi']
+    · have hi' : ¬ i < b.length := h ▸ hi
+      simp [List.getElem?_eq_none (Nat.le_of_not_lt hi), List.getElem?_eq_none (Nat.le_of_not_lt hi')]
+      cases na <;> cases nb <;> simp [sg]
+  · intro _ a b h
+    simp only [List.getD_eq_getElem?_getD, List.getElem?_zipWith]
+    by_cases hi : i < a.length
+    · have hi' : i < b.length := h ▸ hi
+      simp [List.getElem?_eq_getElem hi, List.getElem?_eq_getElem hi']
+    · have hi' : ¬ i < b.length := h ▸ hi
+      simp [List.getElem?_eq_none (Nat.le_of_not_lt hi), List.getElem?_eq_none (Nat.le_of_not_lt hi')]
+
+theorem den_blockdiag (dm : Nat) (ents : List (Op K (X → K))) (m : Nat) :
+    den S (Op.blockdiag dm ents) m = blocks dm (ents.map (den S · m)) := by
+  rw [den]; rfl
+
+/-- the identity entry that `_combine_sum` substitutes for a missing key acts as the identity in every mode -/
+theorem den_unitEntry (v : Op K (X → K)) (s : Nat) (hs : s < 4) :
+    den S (unitEntry S v) (1 <<< s) = den S v (1 <<< s) := by
+  cases v <;> try rfl
+  rename_i d
+  rw [den_idEntry, unitEntry]
+  have : (S).kone = (1 : K) := rfl
+  rw [this, den_scaling isReal re blocks leaf d 1 0 s hs]
+  have : modeScalar (1 : K) s = 1 := by
+    interval_cases s <;> simp [modeScalar]
+  rw [this, one_smul]
+
+/-- **`BlockDiagonalOperator._combine_sum` (repaired).**  If the entry-wise `SumOperator.make` is sound on the (unit-completed)
+    entry pairs, the combined block operator is the signed sum of the two block operators in mode `s`. -/
+theorem combineSum_sound (hB : BlockHom blocks) (mk : List (Op K (X → K)) → List Bool → Op K (X → K))
+    (dm : Nat) (e1 e2 : List (Op K (X → K))) (n1 n2 : Bool) (s : Nat) (hs : s < 4) (hlen : e1.length = e2.length)
+    (hmk : ∀ p ∈ e1.zip e2, den S (mk [unitEntry S p.1, unitEntry S p.2] [n1, n2]) (1 <<< s) =
+      sg n1 (den S (unitEntry S p.1) (1 <<< s)) + sg n2 (den S (unitEntry S p.2) (1 <<< s))) :
+    den S (combineSum S mk dm e1 e2 n1 n2) (1 <<< s) =
+      sg n1 (den S (Op.blockdiag dm e1) (1 <<< s)) + sg n2 (den S (Op.blockdiag dm e2) (1 <<< s)) := by
+  rw [combineSum, den_blockdiag, den_blockdiag, den_blockdiag, ← hB.add dm _ _ n1 n2 (by simpa using hlen)]
+  congr 1
+  rw [List.map_map, List.zipWith_map, ← List.map_uncurry_zip_eq_zipWith]
+  apply List.map_congr_left
+  intro p hp
+  simp only [Function.comp, Function.uncurry]
+  rw [hmk p hp, den_unitEntry isReal re blocks leaf p.1 s hs, den_unitEntry isReal re blocks leaf p.2 s hs]
+
+/-- two-operand `SumOperator.make` on invariant operands, any signs, any fuel -/
+theorem mkSumU_pair_sound (hre : ∀ c, isReal c = true → re c = c) (fuel : Nat) (x y : Op K (X → K)) (n1 n2 : Bool)
+    (hx : Inv x = true) (hy : Inv y = true) :
+    Inv (mkSumU S (fuel + 1) [x, y] [n1, n2]) = true ∧ ∀ s, s < 2 →
+      den S (mkSumU S (fuel + 1) [x, y] [n1, n2]) (1 <<< s) = sg n1 (den S x (1 <<< s)) + sg n2 (den S y (1 <<< s)) := by
+  have hall : ∀ z ∈ [x, y], Inv z = true := by
+    intro z hz; simp only [List.mem_cons, List.not_mem_nil, or_false] at hz
+    rcases hz with rfl | rfl
+    · exact hx
+    · exact hy
+  refine ⟨mkSumU_Inv isReal re blocks leaf hre fuel _ _ hall, fun s hs => ?_⟩
+  have hflatInv : ∀ p ∈ sumFlatten [x, y] [n1, n2], Inv p.1 = true ∧ isSumOp p.1 = false := by
+    apply sumFlatten_members (P := fun y => Inv y = true ∧ isSumOp y = false)
+    intro z hz
+    exact ⟨fun hns => ⟨hall z hz, hns⟩, fun l' ns' hl' w hw => by
+      have := hall z hz; rw [hl'] at this; exact Inv_sum l' ns' this w hw⟩
+  have hP : Fresh (fun y : Op K (X → K) => Inv y = true ∧ isSumOp y = false) :=
+    ⟨fun _ _ _ => by simp [Inv, isSumOp], fun _ _ _ => by simp [Inv, isSumOp], fun _ _ => by simp [Inv, isSumOp]⟩
+  have hres := sumSimplify_pres isReal re blocks leaf _ hP fuel (mkSumU S fuel) [x, y] [n1, n2]
+    (fun p hp => ⟨hflatInv p hp, Inv_okS p.1 (hflatInv p hp).1⟩)
+  rw [mkSumU_sound isReal re blocks leaf hre fuel _ _ s hs (fun p hp => Inv_okS p.1 (hflatInv p hp).1)
+    (fun o' heq => Inv_opnd o' (hres (o', true) (by rw [heq]; simp)).1)]
+  cases n1 <;> cases n2 <;> simp [ssum_cons, ssum_nil, sg]
+
+/-- **a key missing in both operands**: the combined entry is `SumOperator.make` of two identity scalings; its action is
+    `±1 ± 1` — twice the identity for `P1 + P2`, zero for `P1 − P2`, never "still missing" (= the identity). -/
+theorem combineSum_missing_missing (hre : ∀ c, isReal c = true → re c = c) (fuel d1 d2 : Nat) (n1 n2 : Bool) (s : Nat) (hs : s < 2) :
+    den S (mkSumU S (fuel + 1) [unitEntry S (Op.idEntry d1), unitEntry S (Op.idEntry d2)] [n1, n2]) (1 <<< s) =
+      sg n1 (1 : Matrix X X K) + sg n2 1 := by
+  have h := (mkSumU_pair_sound isReal re blocks leaf hre fuel (unitEntry S (Op.idEntry d1)) (unitEntry S (Op.idEntry d2)) n1 n2
+    (by simp [unitEntry, Inv]) (by simp [unitEntry, Inv])).2 s hs
+  rw [h, den_unitEntry isReal re blocks leaf _ s (by omega), den_unitEntry isReal re blocks leaf _ s (by omega), den_idEntry,
+    den_idEntry]
+
+/-- an entry of a block-diagonal operand: a missing key or an invariant (block-free) operator -/
+def EInv (v : Op K (X → K)) : Bool := match v with | .idEntry _ => true | v => Inv v
+
+theorem Inv_unitEntry (v : Op K (X → K)) (h : EInv v = true) : Inv (unitEntry S v) = true := by
+  cases v <;> simp_all [EInv, unitEntry, Inv]
+
+/-- **`_combine_sum` with the verified `SumOperator.make`**: for block operands whose entries are missing keys or invariant
+    operators, over the same key list, the combined operator is the signed sum in both sum modes, and its entries are invariant
+    operators again (so that the step can be iterated). -/
+theorem combineSum_mkSumU_sound (hB : BlockHom blocks) (hre : ∀ c, isReal c = true → re c = c) (fuel : Nat)
+    (dm : Nat) (e1 e2 : List (Op K (X → K))) (n1 n2 : Bool) (hlen : e1.length = e2.length)
+    (h1 : ∀ v ∈ e1, EInv v = true) (h2 : ∀ v ∈ e2, EInv v = true) :
+    (∃ e, combineSum S (mkSumU S (fuel + 1)) dm e1 e2 n1 n2 = Op.blockdiag dm e ∧ e.length = e1.length ∧ ∀ v ∈ e, Inv v = true) ∧
+    ∀ s, s < 2 → den S (combineSum S (mkSumU S (fuel + 1)) dm e1 e2 n1 n2) (1 <<< s) =
+      sg n1 (den S (Op.blockdiag dm e1) (1 <<< s)) + sg n2 (den S (Op.blockdiag dm e2) (1 <<< s)) := by
+  have hp : ∀ p ∈ e1.zip e2, Inv (unitEntry S p.1) = true ∧ Inv (unitEntry S p.2) = true := fun p hp =>
+    ⟨Inv_unitEntry isReal re blocks leaf _ (h1 _ (List.of_mem_zip hp).1), Inv_unitEntry isReal re blocks leaf _ (h2 _ (List.of_mem_zip hp).2)⟩
+  refine ⟨⟨_, rfl, by simp [hlen], ?_⟩, fun s hs => ?_⟩
+  · intro v hv
+    simp only [List.mem_map] at hv
+    obtain ⟨p, hpm, rfl⟩ := hv
+    exact (mkSumU_pair_sound isReal re blocks leaf hre fuel _ _ n1 n2 (hp p hpm).1 (hp p hpm).2).1
+  · exact combineSum_sound isReal re blocks leaf hB _ dm e1 e2 n1 n2 s (by omega) hlen (fun p hpm =>
+      (mkSumU_pair_sound isReal re blocks leaf hre fuel _ _ n1 n2 (hp p hpm).1 (hp p hpm).2).2 s hs)
+
+/-- well-formed block operand over a key list of length `L`: entries are missing keys or invariant operators -/
+def BlkOK (dm L : Nat) (o : Op K (X → K)) : Prop :=
+  ∀ dm' e, o = Op.blockdiag dm' e → dm' = dm ∧ e.length = L ∧ ∀ v ∈ e, EInv v = true
+
+theorem sumMergeBlocksInner_sound (hB : BlockHom blocks) (hre : ∀ c, isReal c = true → re c = c) (fuel f dm0 L : Nat)
+    (mk : List (Op K (X → K)) → List Bool → Op K (X → K)) (hmk : mk = mkSumU S (f + 1))
+    (acc : Op K (X → K)) (accneg : Bool) (l : List (Op K (X → K) × Bool))
+    (hacc : BlkOK dm0 L acc) (hl : ∀ p ∈ l, BlkOK dm0 L p.1) :
+    BlkOK dm0 L (sumMergeBlocksInner S fuel mk acc accneg l).1 ∧
+    (∀ p ∈ (sumMergeBlocksInner S fuel mk acc accneg l).2.2, p ∈ l) ∧
+    ∀ s, s < 2 →
+      sg (sumMergeBlocksInner S fuel mk acc accneg l).2.1 (den S (sumMergeBlocksInner S fuel mk acc accneg l).1 (1 <<< s)) +
+          ssum isReal re blocks leaf (sumMergeBlocksInner S fuel mk acc accneg l).2.2 s =
+        sg accneg (den S acc (1 <<< s)) + ssum isReal re blocks leaf l s := by
+  induction l generalizing acc accneg with
+  | nil => simp [sumMergeBlocksInner, hacc, ssum_nil]
+  | cons hd tl ih =>
+    obtain ⟨p, pn⟩ := hd
+    unfold sumMergeBlocksInner
+    split
+    · rename_i dm e1 dm2 e2
+      obtain ⟨hd1, hL1, hE1⟩ := hacc dm e1 rfl
+      obtain ⟨hd2, hL2, hE2⟩ := hl (Op.blockdiag dm2 e2, pn) (by simp) dm2 e2 rfl
+      subst hmk hd1 hd2
+      obtain ⟨⟨e, he, helen, heInv⟩, hden⟩ := combineSum_mkSumU_sound isReal re blocks leaf hB hre f dm2 e1 e2 accneg pn
+        (hL1.trans hL2.symm) hE1 hE2
+      have hacc' : BlkOK dm2 L (combineSum S (mkSumU S (f + 1)) dm2 e1 e2 accneg pn) := by
+        intro dm' e' h'
+        rw [he] at h'
+        injection h' with hdm h'
+        subst h'
+        refine ⟨hdm.symm, helen.trans hL1, fun v hv => ?_⟩
+        have := heInv v hv
+        cases v <;> simp_all [EInv]
+      obtain ⟨a1, a2, a3⟩ := ih (combineSum S (mkSumU S (f + 1)) dm2 e1 e2 accneg pn) false hacc'
+        (fun q hq => hl q (by simp [hq]))
+      refine ⟨a1, fun q hq => by simp [a2 q hq], fun s hs => ?_⟩
+      rw [a3 s hs, hden s hs, ssum_cons]
+      simp only [sg, Bool.false_eq_true, if_false]
+      abel
+    · obtain ⟨a1, a2, a3⟩ := ih acc accneg hacc (fun q hq => hl q (by simp [hq]))
+      refine ⟨a1, fun q hq => ?_, fun s hs => ?_⟩
+      · simp only [List.mem_cons] at hq ⊢
+        rcases hq with rfl | hq
+        · exact Or.inl rfl
+        · exact Or.inr (a2 q hq)
+      · simp only [ssum_cons]
+        have := a3 s hs
+        rw [add_left_comm, this, add_left_comm]
+
+/-- **the block-merging pass of `SumOperator.simplify`** (`_combine_sum` applied to every pair of block-diagonal operands):
+    the signed sum is unchanged in both sum modes -/
+theorem sumMergeBlocks_sound (hB : BlockHom blocks) (hre : ∀ c, isReal c = true → re c = c) (fuel f dm0 L : Nat)
+    (mk : List (Op K (X → K)) → List Bool → Op K (X → K)) (hmk : mk = mkSumU S (f + 1))
+    (l : List (Op K (X → K) × Bool)) (hl : ∀ p ∈ l, BlkOK dm0 L p.1) (s : Nat) (hs : s < 2) :
+    ssum isReal re blocks leaf (sumMergeBlocks S fuel mk l) s = ssum isReal re blocks leaf l s := by
+  fun_induction sumMergeBlocks S fuel mk l with
+  | case1 => rfl
+  | case2 o n rest ho r ih =>
+    obtain ⟨a1, a2, a3⟩ := sumMergeBlocksInner_sound isReal re blocks leaf hB hre fuel f dm0 L mk hmk o n rest
+      (hl (o, n) (by simp)) (fun q hq => hl q (by simp [hq]))
+    rw [ssum_cons, ih (fun q hq => hl q (by simp [a2 q hq])), ssum_cons]
+    have := a3 s hs
+    simp only [sg] at this
+    exact this
+  | case3 o n rest ho ih =>
+    rw [ssum_cons, ssum_cons, ih (fun q hq => hl q (by simp [hq]))]
+
+theorem Inv_EInv (v : Op K (X → K)) (h : Inv v = true) : EInv v = true := by
+  cases v <;> simp_all [EInv, Inv]
+
+/-- one entry of `_combine_chain` (repaired) with the verified `ChainOperator.make`: a missing key is the identity -/
+theorem combineChainEntry_sound (hre : ∀ c, isReal c = true → re c = c) (f : Nat) (v1 v2 : Op K (X → K))
+    (h1 : EInv v1 = true) (h2 : EInv v2 = true) (s : Nat) (hs : s < 4) :
+    EInv (combineChainEntry S (mkChainU S (f + 1)) v1 v2) = true ∧
+    den S (combineChainEntry S (mkChainU S (f + 1)) v1 v2) (1 <<< s) =
+      mprod (revOf s) [den S v1 (1 <<< s), den S v2 (1 <<< s)] := by
+  unfold combineChainEntry
+  split
+  · refine ⟨h2, ?_⟩
+    rw [den_idEntry, mprod_cons, mprod_singleton]; cases revOf s <;> simp
+  · refine ⟨h1, ?_⟩
+    rw [den_idEntry, mprod_cons, mprod_singleton]; cases revOf s <;> simp
+  · rename_i hn1 hn2
+    have hI1 : Inv v1 = true := by cases v1 <;> simp_all [EInv]
+    have hI2 : Inv v2 = true := by cases v2 <;> simp_all [EInv]
+    split
+    · rename_i hid
+      refine ⟨h2, ?_⟩
+      rw [isIdentity_den isReal re blocks leaf v1 hid, mprod_cons, mprod_singleton]; cases revOf s <;> simp
+    · split
+      · rename_i hid
+        refine ⟨h1, ?_⟩
+        rw [isIdentity_den isReal re blocks leaf v2 hid, mprod_cons, mprod_singleton]; cases revOf s <;> simp
+      · have hall : ∀ x ∈ [v1, v2], Inv x = true := by
+          intro x hx; simp only [List.mem_cons, List.not_mem_nil, or_false] at hx
+          rcases hx with rfl | rfl
+          · exact hI1
+          · exact hI2
+        obtain ⟨hne, hok⟩ := opnd_list [v1, v2] (fun x hx => Inv_opnd x (hall x hx))
+        refine ⟨Inv_EInv _ (mkChainU_Inv isReal re blocks leaf hre f [v1, v2] (by simp) hall), ?_⟩
+        rw [mkChainU_sound isReal re blocks leaf hre f [v1, v2] s hs (by simp) hne hok]
+        rfl
+
+/-- **`BlockDiagonalOperator._combine_chain` (repaired)**: the combined operator is the product of the two block operators in
+    every mode (in reversed order for the two adjoint-like modes), and it is again a well-formed block operand -/
+theorem combineChain_sound (hB : BlockHom blocks) (hre : ∀ c, isReal c = true → re c = c) (f dm : Nat)
+    (e1 e2 : List (Op K (X → K))) (hlen : e1.length = e2.length)
+    (h1 : ∀ v ∈ e1, EInv v = true) (h2 : ∀ v ∈ e2, EInv v = true) :
+    BlkOK dm e1.length (combineChain S (mkChainU S (f + 1)) dm e1 e2) ∧
+    ∀ s, s < 4 → den S (combineChain S (mkChainU S (f + 1)) dm e1 e2) (1 <<< s) =
+      mprod (revOf s) [den S (Op.blockdiag dm e1) (1 <<< s), den S (Op.blockdiag dm e2) (1 <<< s)] := by
+  constructor
+  · intro dm' e' h'
+    rw [combineChain] at h'
+    injection h' with hdm h'
+    subst h'
+    refine ⟨hdm.symm, by simp [hlen], fun v hv => ?_⟩
+    simp only [List.mem_map] at hv
+    obtain ⟨p, hp, rfl⟩ := hv
+    exact (combineChainEntry_sound isReal re blocks leaf hre f p.1 p.2 (h1 _ (List.of_mem_zip hp).1) (h2 _ (List.of_mem_zip hp).2)
+      0 (by decide)).1
+  · intro s hs
+    have hent : (List.map (fun x => den S x (1 <<< s)) ((e1.zip e2).map fun p => combineChainEntry S (mkChainU S (f + 1)) p.1 p.2)) =
+        List.zipWith (fun x y => mprod (revOf s) [x, y]) (e1.map (den S · (1 <<< s))) (e2.map (den S · (1 <<< s))) := by
+      rw [List.map_map, List.zipWith_map, ← List.map_uncurry_zip_eq_zipWith]
+      apply List.map_congr_left
+      intro p hp
+      simp only [Function.comp, Function.uncurry]
+      exact (combineChainEntry_sound isReal re blocks leaf hre f p.1 p.2 (h1 _ (List.of_mem_zip hp).1) (h2 _ (List.of_mem_zip hp).2)
+        s hs).2
+    rw [combineChain, den_blockdiag, den_blockdiag, den_blockdiag, hent, mprod_cons, mprod_singleton]
+    have hfalse : (fun x y : Matrix X X K => mprod false [x, y]) = fun x y => x * y := by
+      funext x y; simp [mprod_cons, mprod_nil]
+    have htrue : (fun x y : Matrix X X K => mprod true [x, y]) = fun x y => y * x := by
+      funext x y; simp [mprod_cons, mprod_nil]
+    cases revOf s
+    · simp only [Bool.false_eq_true, if_false]
+      rw [hfalse]
+      exact hB.mul dm _ _ (by simpa using hlen)
+    · simp only [if_true]
+      rw [htrue, List.zipWith_comm]
+      exact hB.mul dm _ _ (by simpa using hlen.symm)
+
+/-- **the block-merging pass of `ChainOperator.simplify`**: adjacent block-diagonal operands over the same keys are combined entry
+    by entry; the ordered product is unchanged in all four modes -/
+theorem chainMergeBlock_sound (hB : BlockHom blocks) (hre : ∀ c, isReal c = true → re c = c) (f dm0 L : Nat)
+    (l : List (Op K (X → K))) (hl : ∀ o ∈ l, BlkOK dm0 L o) (s : Nat) (hs : s < 4) :
+    mprod (revOf s) ((chainMergeBlock S (mkChainU S (f + 1)) l).map (den S · (1 <<< s))) =
+      mprod (revOf s) (l.map (den S · (1 <<< s))) := by
+  have aux : ∀ (l acc : List (Op K (X → K))), (∀ o ∈ acc, BlkOK dm0 L o) → (∀ o ∈ l, BlkOK dm0 L o) →
+      mprod (revOf s) (((l.foldl (chainMergeBlockStep S (mkChainU S (f + 1))) acc).reverse).map (den S · (1 <<< s))) =
+        mprod (revOf s) ((acc.reverse ++ l).map (den S · (1 <<< s))) := by
+    intro l
+    induction l with
+    | nil => intro acc _ _; simp
+    | cons op tl ih =>
+      intro acc hacc hl
+      rw [List.foldl_cons]
+      have hstep : (∀ o ∈ chainMergeBlockStep S (mkChainU S (f + 1)) acc op, BlkOK dm0 L o) ∧
+          mprod (revOf s) (((chainMergeBlockStep S (mkChainU S (f + 1)) acc op).reverse ++ tl).map (den S · (1 <<< s))) =
+            mprod (revOf s) ((acc.reverse ++ op :: tl).map (den S · (1 <<< s))) := by
+        unfold chainMergeBlockStep
+        split
+        · rename_i dm e1 accs dm2 e2
+          obtain ⟨hd1, hL1, hE1⟩ := hacc (Op.blockdiag dm e1) (by simp) dm e1 rfl
+          obtain ⟨hd2, hL2, hE2⟩ := hl (Op.blockdiag dm2 e2) (by simp) dm2 e2 rfl
+          obtain ⟨hb, hden⟩ := combineChain_sound isReal re blocks leaf hB hre f dm e1 e2 (hL1.trans hL2.symm) hE1 hE2
+          constructor
+          · intro o ho
+            simp only [List.mem_cons] at ho
+            rcases ho with rfl | ho
+            · rw [hL1] at hb; rw [← hd1]; exact hb
+            · exact hacc o (by simp [ho])
+          · simp only [List.reverse_cons, List.append_assoc, List.map_append, List.map_cons, List.map_nil,
+              List.singleton_append, List.cons_append, List.nil_append]
+            rw [hden s hs, hd1, hd2]
+            simp only [mprod_append, mprod_cons, mprod_nil]
+            cases revOf s <;> simp [mul_assoc]
+        · constructor
+          · intro o ho
+            simp only [List.mem_cons] at ho
+            rcases ho with rfl | ho
+            · exact hl o (by simp)
+            · exact hacc o ho
+          · simp
+      rw [ih _ hstep.1 (fun o ho => hl o (by simp [ho])), hstep.2]
+  unfold chainMergeBlock
+  simpa using aux l [] (by simp) hl
+
+/-- non-vacuity: two block operands over two keys in which the SAME key is missing on both sides are well-formed, and the verified
+    `_combine_sum` turns that key into `1 + 1` -/
+example : BlkOK (X := Fin 2) (K := ℚ) 5 2 (Op.blockdiag 5 [Op.idEntry 0, Op.leaf 3 15 1 1]) ∧
+    sg false (1 : Matrix (Fin 2) (Fin 2) ℚ) + sg false 1 = 2 := by
+  constructor
+  · intro dm' e' h
+    injection h with h1 h2
+    subst h2
+    exact ⟨h1.symm, rfl, by simp [EInv, Inv]⟩
+  · simp [sg]; norm_num
+
 end matrix
 
 end NiftyVerif.C01
